@@ -311,9 +311,22 @@ func (s *Sorts) Implements(iface *types.Interface, ifaceName string, term string
 			cases = append(cases, s.IsType(t, term))
 		}
 	}
-	nm := "impl_" + mangle(ifaceName)
-	s.ifaceNames[nm] = iface
-	cases = append(cases, fmt.Sprintf("(and ((_ is b_other) %s) (%s (otag %s)))", term, nm, term))
+	// an interface with an unexported method can only be implemented inside its own package:
+	// its implementers form a closed set (all of them are in the type universe)
+	closed := false
+	for i := 0; i < iface.NumMethods(); i++ {
+		if m := iface.Method(i); !m.Exported() && inRepo(m.Pkg()) {
+			closed = true
+		}
+	}
+	if !closed {
+		nm := "impl_" + mangle(ifaceName)
+		s.ifaceNames[nm] = iface
+		cases = append(cases, fmt.Sprintf("(and ((_ is b_other) %s) (%s (otag %s)))", term, nm, term))
+	}
+	if len(cases) == 0 {
+		return "false"
+	}
 	return "(or " + strings.Join(cases, " ") + ")"
 }
 
